@@ -81,6 +81,13 @@ pub trait ToRange {
 //~assume the closure `|(p, offset)|` of `fold` is applied to every procedure declaration in source order (filter_map().map().collect(); R6): "exactly one range per procedure, in source order" is not decided
 //~assume every procedure's token range (shifted by its Reference offset) lies inside the token vector (established by the nom parser)
 //~not_decided one folding range per procedure, in source order, non-overlapping (iterator chain around the closure and the parser's ranges); end line when the last token is a comment
+/// starts on the line of the first non-comment token of the procedure, ends on the line of the end of its last token
+pub open spec fn fold_lines_ok(p: ProcedureDeclaration, offset: usize, doc: AnalyzedSource, fr: FoldingRange) -> bool {
+    let lo = p.info.range.start + offset; let hi = p.info.range.end + offset;
+    let k = lo + first_code(doc.tokens@.subrange(lo, hi));
+    k < hi ==> fr.start_line == pos_of(doc.tokens@[k].range.start, doc.text@).line
+            && fr.end_line == pos_of(doc.tokens@[hi - 1].range.end, doc.text@).line
+}
 //@extract lsp4spl/src/features/fold.rs :: fn fold :: closure |(p, offset)|
 //@ lift pub fn fold_closure(p: &ProcedureDeclaration, offset: usize, doc: &AnalyzedSource) -> (fr: FoldingRange)
 //@ sig
@@ -89,10 +96,7 @@ pub trait ToRange {
         tokens_tile(doc.tokens@, byte_off(doc.text@, doc.text@.len() as int)), tokens_on_boundaries(doc.tokens@, doc.text@), text_fits(doc.text@),
     ensures
         fr.start_line <= fr.end_line, //# fold::start_not_after_end
-        ({  let lo = p.info.range.start + offset; let hi = p.info.range.end + offset;
-            let k = lo + first_code(doc.tokens@.subrange(lo, hi));
-            k < hi ==> fr.start_line == pos_of(doc.tokens@[k].range.start, doc.text@).line
-                    && fr.end_line == pos_of(doc.tokens@[hi - 1].range.end, doc.text@).line }), //# fold::first_code_token_to_last_token
+        fold_lines_ok(*p, offset, *doc, fr), //# fold::first_code_token_to_last_token
         fr.kind == Some(FoldingRangeKind::Region),
 //@ before "let range = as_pos_range(&text_range, &doc.text);"
 proof {
